@@ -166,6 +166,10 @@ def make_faults():
     # a std Option of a non-pointer nested in a Result arm is not converted by the proc macro (only the top-level one is): DiplomatOption is required
     ret_fault("std-option-of-primitive-in-result-arm", const(["opt", ["prim", "u8"], "std"]), wraps=("ok", "err"))
     ret_fault("std-option-of-enum-in-result-arm", with_enum(lambda n: ["opt", ["enum", n], "std"]), wraps=("ok", "err"))
+    # ... and neither is a std Option of a string or slice (a top-level Option<&str> return is fine)
+    ret_fault("std-option-of-str-in-result-arm", const(["opt", ["str", "dvr", "str8", "std"], "std"]), wraps=("ok", "err"))
+    ret_fault("std-option-of-slice-in-result-arm", const(["opt", ["slice", "dvr", False, "u8", "std"], "std"]), wraps=("ok", "err"))
+    ret_fault("std-option-of-std-option-of-str", const(["opt", ["opt", ["str", "dvr", "str8", "std"], "std"], "std"]), wraps=("plain",))
     ret_fault("callback-in-output", const(["cb", [["prim", "u8"]], ["unit"], False]), wraps=("plain", "ok"))
     param_fault("result-returned-by-callback", const(["cb", [], ["result", ["prim", "u8"], ["unit"], "std"], False]), depth=2)
 
